@@ -320,3 +320,28 @@ From GV Require Import Lang.LitEnc.
 Theorem C01_from_argument_literals_to_the_result_literal : ltac:(let T := type of lit_program_agree in exact T).
 Proof. exact lit_program_agree. Qed.
 Print Assumptions C01_from_argument_literals_to_the_result_literal.
+
+(* ------------------------------------------------------------------ WITHOUT the "Stuck => True"
+   escape (Compile/TSemSemFullWt.v): the strict checker of the covered fragment plus three extra
+   boolean tests (wtx: struct literal field count, unit patterns on unit variants, ranges lo <= hi)
+   implies the re-checker Wt.v accepts the program (in_full_fragment3_wt), hence (Lang/WtSound.v)
+   the source semantics is never stuck for a typing reason; so for covered, well-typed programs
+   and canonical arguments, whenever the bit-level semantics is defined, Sem.run_main RETURNS the
+   same bits, or PANICS with the same reason and location, or runs out of its own fuel - or, for
+   programs containing a match without an irrefutable arm (frag_program = false), is stuck on "no
+   arm matches" (excluded by the exhaustiveness check of C08, whose verified decision procedures
+   are not yet connected to Sem.pmatch inside Coq). *)
+From GV Require Import Compile.TSemSemFullWt.
+
+Theorem C01_covered_well_typed_programs_agree :
+  forall P fuel fw fT args o outs, (fw <= Wt.wt_fuel)%nat ->
+  wt_covered fw P = true -> TSemSemFull.canonical_main_args P args = true ->
+  tsem_program fT P args = Ok (o, outs) ->
+  Wt.wt_program P = true /\
+  ((exists bits l, Sem.run_main fuel P args = Sem.RunOk bits l /\ o = None /\ outs = bits) \/
+   (exists r m, Sem.run_main fuel P args = Sem.RunPanic r m /\
+                o = Some (preason_num (pr r), PanicSem.ploc32 (ploc_of m))) \/
+   Sem.run_main fuel P args = Sem.RunNoFuel \/
+   (ValTy.frag_program P = false /\ exists c, Sem.run_main fuel P args = Sem.RunStuck c /\ In c ValTy.stuck_allowed)).
+Proof. exact wt_covered_agrees. Qed.
+Print Assumptions C01_covered_well_typed_programs_agree.
